@@ -217,6 +217,47 @@ pub fn c15_q_concat_measure() {
     reach!(k >= n1 && !s.underline && !s.strike, "reach.second_part");
 }
 
+/// fonts WITH character spacing (custom font over the FONT_4X6 atlas, spacing 0..3): draw_string and
+/// Text::draw return the position measure_string predicts, in every colour arm, for 0-2 characters.
+/// Known finding KF-3: with neither text nor background colour the returned x includes the trailing
+/// spacing (enshrined in the unit test transparent_text_dimensions_one_line_spaced).
+#[cfg_attr(kani, kani::proof, kani::unwind(9))]
+pub fn c15_q_spaced_next_eq_measure() {
+    use embedded_graphics::text::renderer::TextRenderer;
+    let sp = small_u(2);
+    let font = MonoFont { character_spacing: sp, ..FONT_4X6 };
+    let (has_text, has_bg) = (flag(), flag());
+    let mut b = MonoTextStyleBuilder::new().font(&font);
+    if has_text { b = b.text_color(Gray8::new(200)); }
+    if has_bg { b = b.background_color(Gray8::new(50)); }
+    let cs = b.build();
+    let pos = point(5);
+    let baseline = match pick(4) { 0 => Baseline::Top, 1 => Baseline::Bottom, 2 => Baseline::Middle, _ => Baseline::Alphabetic };
+    note!("spacing", sp); note!("has_text", has_text); note!("has_bg", has_bg); note!("pos", pos); note!("baseline", baseline);
+    let known = !has_text && !has_bg && sp > 0;
+    reach!(known, "reach.kf3_region");
+    // a target that ignores everything: only the returned positions matter here (a recording target
+    // would pull the first glyph pixel through iterators with symbolic bounds)
+    let mut t = Null::<Gray8>::new();
+    // empty, one and two characters
+    let n0 = cs.draw_string(&concat!("", "~")[..0], pos, baseline, &mut t).unwrap();
+    check!(n0 == cs.measure_string("", pos, baseline).next_position, "C15.next_eq_measure");
+    let n1 = cs.draw_string("!", pos, baseline, &mut t).unwrap();
+    note!("next(1 char)", n1); note!("measure(1 char)", cs.measure_string("!", pos, baseline).next_position);
+    check_kf!(n1 == cs.measure_string("!", pos, baseline).next_position, "C15.next_eq_measure", "C15.next_eq_measure@KF-3", known);
+    let n2 = cs.draw_string("!\"", pos, baseline, &mut t).unwrap();
+    note!("next(2 chars)", n2); note!("measure(2 chars)", cs.measure_string("!\"", pos, baseline).next_position);
+    check_kf!(n2 == cs.measure_string("!\"", pos, baseline).next_position, "C15.next_eq_measure", "C15.next_eq_measure@KF-3", known);
+    // reference arithmetic: n characters are n cells and n - 1 gaps wide
+    let cw = font.character_size.width as i32;
+    check_kf!(n2.x == pos.x + 2 * cw + sp as i32 && n2.y == pos.y, "C15.next_position", "C15.next_position@KF-3", known);
+    // through Text::draw (Left alignment): same position
+    let ts = TextStyleBuilder::new().baseline(baseline).build();
+    let nt = Text::with_text_style("!\"", pos, cs, ts).draw(&mut t).unwrap();
+    check!(nt == n2, "C15.text_eq_draw_string");
+    reach!(sp == 3 && has_text && !has_bg, "reach.spaced_text_only");
+}
+
 /// Reachability twin.
 #[cfg_attr(kani, kani::proof, kani::unwind(9))]
 pub fn c15_q_twin_layout() {
